@@ -38,6 +38,7 @@ BUILTIN_DECLARED = {
     'iterator': {'$src', '$pos'},
     'ExtHttpRequest': {'content_type', 'mimetype', 'is_json'},
     'ExtHttpResponse': {'status', 'body', 'content_type'},
+    'UserClientObject': {'_endpoint'},
 }
 
 
